@@ -35,10 +35,11 @@ Unit(ref, prefix, exp, mult, id) == [ref |-> ref, prefix |-> prefix, exp |-> exp
 \* ------------------------------------------------------------------ feature vectors
 \* fv: [site, cls, ids, prefix, exp, mult, depth, nmaps, mapIds, connId, pairs, reset, imports]
 FV0 == [site |-> "none", cls |-> "plain", ids |-> FALSE, prefix |-> NoneS, exp |-> "1", mult |-> "1", depth |-> 2,
-        nmaps |-> 1, mapIds |-> FALSE, connId |-> FALSE, pairs |-> 1, reset |-> "none", imports |-> "none"]
+        nmaps |-> 1, mapIds |-> FALSE, connId |-> FALSE, pairs |-> 1, reset |-> "none", imports |-> "none", twin |-> FALSE]
 Dims == [site |-> Sites, cls |-> Classes, ids |-> BOOLEAN, prefix |-> {NoneS, "milli", "3", "-2"}, exp |-> {"1", "2", "-1", "0.5"},
-         mult |-> {"1", "1000", "0.001", "2.5"}, depth |-> 1..3, nmaps |-> 0..3, mapIds |-> BOOLEAN, connId |-> BOOLEAN, pairs |-> 1..2,
-         reset |-> {"none", "ordered", "unordered", "two"}, imports |-> {"none", "units", "comp", "both", "twoSources"}]
+         mult |-> {"1", "1000", "0.001", "2.5"}, depth |-> 1..3, nmaps |-> 0..3, mapIds |-> BOOLEAN, connId |-> BOOLEAN, pairs |-> 1..3,
+         reset |-> {"none", "ordered", "unordered", "two"}, imports |-> {"none", "units", "comp", "both", "twoSources"},
+         twin |-> BOOLEAN]   \* a top-level component that is a structural look-alike of the nested c3 (same name: not a valid model)
 DimNames == DOMAIN Dims
 \* all vectors differing from FV0 in at most the given one / two / three dimensions
 Vary1(d) == {[FV0 EXCEPT ![d] = v] : v \in Dims[d]}
@@ -84,6 +85,7 @@ CompsOf(fv) ==
       Comp("d1", NoneS, fv, NoneS, <<>>, FALSE)>>
     \o (IF fv.depth >= 2 THEN <<Comp("c2", C1(fv), fv, EqMath("y", Ci("z")), <<>>, TRUE)>> ELSE <<>>)
     \o (IF fv.depth >= 3 THEN <<Comp("c3", "c2", fv, NoneS, <<>>, TRUE)>> ELSE <<>>)
+    \o (IF fv.twin THEN <<Comp("c3", NoneS, fv, NoneS, <<>>, fv.depth >= 3)>> ELSE <<>>)
     \o (IF fv.imports \in {"comp", "both", "twoSources"}
         THEN <<[name |-> "ic", id |-> Id("icid", "icId", fv), encId |-> NoneS,
                 imp |-> IF fv.imports = "twoSources" THEN "other.cellml" ELSE St("lib.cellml", "href", fv),
@@ -100,6 +102,8 @@ Ordered(a, b, fv, n, k) == Conn(a, b, fv, n, k)
 ConnsOf(fv) ==
     (IF fv.nmaps >= 1 THEN <<Ordered(C1(fv), "d1", fv, fv.nmaps, "a")>> ELSE <<>>)
     \o (IF fv.pairs = 2 /\ fv.depth >= 2 /\ fv.nmaps >= 1 THEN <<Ordered(C1(fv), "c2", fv, 1, "b")>> ELSE <<>>)
+    \* pairs = 3 closes a cycle of equivalences: c1.x - d1.x, c1.x - c2.x, c2.x - d1.x
+    \o (IF fv.pairs = 3 /\ fv.depth >= 2 /\ fv.nmaps >= 1 THEN <<Ordered(C1(fv), "c2", fv, 1, "b"), Ordered("c2", "d1", fv, 1, "c")>> ELSE <<>>)
     \o (IF fv.imports \in {"comp", "both", "twoSources"} /\ fv.nmaps >= 1
         THEN <<[c1 |-> "d1", c2 |-> "ic", id |-> NoneS, maps |-> <<[v1 |-> "y", v2 |-> "p", id |-> NoneS]>>]>> ELSE <<>>)
 ImportsOf(fv) ==
